@@ -38,6 +38,29 @@ PARSE_LEAVES = ['unzigzag32_spec', 'unzigzag64_spec', 'parse_uint32_spec', 'pars
                 'parse_fixed_uint32_spec', 'parse_fixed_uint64_spec', 'scan_varint_spec', 'parse_tag_and_wiretype_spec',
                 'parse_tag_and_wiretype_ok', 'scan_length_prefixed_data_spec']
 TABLE_LEAVES = ['get_type_min_size_spec', 'sizeof_elt_in_repeated_array_spec', 'is_packable_type_spec']
+# Refine/Bridge.lean: translated leaf = MODEL function (list level); each rests on the `_spec` theorem(s) named in BRIDGE_DEPS
+B = 'Pbc.Refine.Bridge.'
+SIZE_MODEL = [B + x for x in ('get_tag_size_model', 'uint32_size_model', 'int32_size_model', 'sint32_size_model', 'uint64_size_model', 'sint64_size_model')]
+PACK_MODEL = [B + x for x in ('uint32_pack_model', 'int32_pack_model', 'sint32_pack_model', 'uint64_pack_model', 'sint64_pack_model',
+                              'fixed32_pack_model', 'fixed64_pack_model', 'boolean_pack_model', 'tag_pack_model', 'keyBytes_or',
+                              'zigzag32_model', 'zigzag64_model')]
+PARSE_MODEL = [B + x for x in ('scan_varint_model', 'parse_uint32_model', 'parse_int32_model', 'parse_uint64_model',
+                               'parse_fixed_uint32_model', 'parse_fixed_uint64_model', 'parse_tag_and_wiretype_model',
+                               "parse_tag_and_wiretype_model'", 'scan_length_prefixed_data_model', 'unzigzag32_model', 'unzigzag64_model')]
+SCAN_MODEL = [B + x for x in ('scan_varint_model', 'parse_tag_and_wiretype_model', "parse_tag_and_wiretype_model'", 'scan_length_prefixed_data_model')]
+LOOP_PARSE_MODEL = ['Pbc.Refine.Loops.parse_boolean_model', 'Pbc.Refine.Loops.max_b128_numbers_model']
+LOOP_LOOKUP_MODEL = ['Pbc.Refine.Loops.int_range_lookup_model', 'Pbc.Refine.Loops.int_range_lookup_mkRanges']
+
+
+def bridge_deps(short):
+    """the Refine/Leaves theorems a Bridge theorem rests on"""
+    base = short.rstrip("'")
+    if base == 'keyBytes_or':
+        return []
+    d = [base.replace('_model', '_spec')]
+    if base.startswith('parse_tag_and_wiretype'):
+        d.append('parse_tag_and_wiretype_ok')
+    return d
 
 GEN_FINDINGS = {'C12': ('F17', 'F12b'), 'C15': ('F12b',)}
 
@@ -83,9 +106,9 @@ PROPS = {
     ),
     'C02': dict(
         title='size, pack and pack_to_buffer agree; pack never overruns',
-        modules=['Pbc.Props.C02'],
+        modules=['Pbc.Props.C02', 'Pbc.Refine.Bridge'],
         theorems=['Pbc.Props.C02.packMsg_length', 'Pbc.Props.C02.chunksMsg_flatten', 'Pbc.Props.C02.chunks_total',
-                  'Pbc.Props.C02.packed_guess_short_by_at_most_one'],
+                  'Pbc.Props.C02.packed_guess_short_by_at_most_one'] + SIZE_MODEL + PACK_MODEL,
         refine=SIZE_LEAVES + PACK_LEAVES + TABLE_LEAVES,
         cases=[('msg', 250, 4000, ['--big']), ('leaf', 30, 300, [])],
         oracle='c02',
@@ -93,7 +116,8 @@ PROPS = {
     ),
     'C01': dict(
         title='pack then unpack returns an equal message',
-        modules=['Pbc.Lemmas.Elem', 'Pbc.Props.C02', 'Pbc.Props.C01', 'Pbc.Props.C01b', 'Pbc.Props.C01c', 'Pbc.Props.C01d'],
+        modules=['Pbc.Lemmas.Elem', 'Pbc.Props.C02', 'Pbc.Props.C01', 'Pbc.Props.C01b', 'Pbc.Props.C01c', 'Pbc.Props.C01d',
+                 'Pbc.Refine.Bridge', 'Pbc.Refine.Loops'],
         theorems=['Pbc.Lemmas.parseScalar_scalarBytes', 'Pbc.Lemmas.scanKey_keyBytes', 'Pbc.Lemmas.scanLen_lenPrefixed',
                   'Pbc.Lemmas.scalarBytes_scan_varint', 'Pbc.Lemmas.unzigzag32_zigzag32', 'Pbc.Lemmas.unzigzag64_zigzag64',
                   'Pbc.Lemmas.loadLE_le32', 'Pbc.Lemmas.loadLE_le64', 'Pbc.Props.C02.packMsg_length',
@@ -102,19 +126,20 @@ PROPS = {
                   'Pbc.Props.C01.parseRequired_elem', 'Pbc.Props.C01.parsePacked_elems', 'Pbc.Props.C01.parse_slot', 'Pbc.Props.C01.parse_slots',
                   'Pbc.Props.C01.roundtrip_level', 'Pbc.Props.C01.roundtrip_partial', 'Pbc.Props.C01.unpack_pack_partial',
                   'Pbc.Props.C01.step', 'Pbc.Props.C01.roundtrip_level_oneof', 'Pbc.Props.C01.roundtrip', 'Pbc.Props.C01.unpack_pack',
-                  'Pbc.Props.C01.nested_facts', 'Pbc.Props.C01.canon_depth', 'Pbc.Props.C01.unpack_pack_canonical'],
+                  'Pbc.Props.C01.nested_facts', 'Pbc.Props.C01.canon_depth', 'Pbc.Props.C01.unpack_pack_canonical']
+                 + PACK_MODEL + PARSE_MODEL + LOOP_PARSE_MODEL,
         refine=PACK_LEAVES + PARSE_LEAVES + TABLE_LEAVES,
         cases=[('msg', 300, 5000, []), ('leaf', 20, 200, [])],
         oracle='c01',
     ),
     'C03': dict(
         title='packed bytes are valid protobuf with the same meaning (encoder interop)',
-        modules=['Pbc.Props.C02', 'Pbc.Lemmas.Elem', 'Pbc.Props.C01b', 'Pbc.Props.C01c', 'Pbc.Props.C01d', 'Pbc.Props.C03'],
+        modules=['Pbc.Props.C02', 'Pbc.Lemmas.Elem', 'Pbc.Props.C01b', 'Pbc.Props.C01c', 'Pbc.Props.C01d', 'Pbc.Props.C03', 'Pbc.Refine.Bridge'],
         theorems=['Pbc.Props.C02.packMsg_length', 'Pbc.Lemmas.parseScalar_scalarBytes', 'Pbc.Lemmas.scanKey_keyBytes',
                   'Pbc.Lemmas.scanLen_lenPrefixed', 'Pbc.Lemmas.scalarBytes_scan_varint',
                   'Pbc.Props.C03.varint_shortest', 'Pbc.Props.C03.scalar_encoding', 'Pbc.Props.C03.packed_iff_flag',
                   'Pbc.Props.C01.roundtrip_partial',
-                  'Pbc.Props.C01.roundtrip', 'Pbc.Props.C01.unpack_pack_canonical'],
+                  'Pbc.Props.C01.roundtrip', 'Pbc.Props.C01.unpack_pack_canonical'] + PACK_MODEL + SIZE_MODEL,
         refine=PACK_LEAVES + SIZE_LEAVES + TABLE_LEAVES,
         cases=[('enc', 300, 5000, [])], gen=(8, 48),
         oracle='c03', ref=True,
@@ -132,11 +157,12 @@ PROPS = {
     ),
     'C09': dict(
         title='unknown fields survive parse and re-serialise (forward compatibility)',
-        modules=['Pbc.Props.C02', 'Pbc.Lemmas.Elem', 'Pbc.Props.C01c', 'Pbc.Props.C09'],
+        modules=['Pbc.Props.C02', 'Pbc.Lemmas.Elem', 'Pbc.Props.C01c', 'Pbc.Props.C09', 'Pbc.Refine.Bridge'],
         theorems=['Pbc.Props.C02.chunksMsg_flatten', 'Pbc.Props.C02.packMsg_length', 'Pbc.Lemmas.scanKey_keyBytes',
                   'Pbc.Lemmas.scanLen_lenPrefixed',
                   'Pbc.Props.C01.pack_scans', 'Pbc.Props.C01.roundtrip',
-                  'Pbc.Props.C09.forward_compat', 'Pbc.Props.C04.unpack_reordered', 'Pbc.Props.C04.parseAll_reorder'],
+                  'Pbc.Props.C09.forward_compat', 'Pbc.Props.C04.unpack_reordered', 'Pbc.Props.C04.parseAll_reorder']
+                 + SCAN_MODEL + [B + 'tag_pack_model', B + 'keyBytes_or'],
         refine=['parse_tag_and_wiretype_spec', 'scan_length_prefixed_data_spec', 'scan_varint_spec', 'tag_pack_spec'],
         cases=[('compat', 300, 5000, [])],
         oracle='c09', ref=True,
@@ -153,10 +179,10 @@ PROPS = {
     ),
     'C05': dict(
         title='parsing arbitrary bytes is memory-safe and always terminates',
-        modules=['Pbc.Props.C05'],
+        modules=['Pbc.Props.C05', 'Pbc.Refine.Bridge', 'Pbc.Refine.Loops'],
         theorems=['Pbc.Props.C05.pass2_count_le_pass1', 'Pbc.Props.C05.parsePackedVarints_count', 'Pbc.Props.C05.scanStep_consumes',
                   'Pbc.Props.C05.scanLoop_fuel_irrelevant', 'Pbc.Props.C05.scanStep_member_shorter', 'Pbc.Props.C05.delimit_bounds',
-                  'Pbc.Props.C05.scanKey_used', 'Pbc.Props.C05.scanLen_bounds'],
+                  'Pbc.Props.C05.scanKey_used', 'Pbc.Props.C05.scanLen_bounds'] + PARSE_MODEL + LOOP_PARSE_MODEL,
         refine=PARSE_LEAVES + TABLE_LEAVES,
         cases=[('wire', 500, 8000, []), ('leaf', 30, 300, [])],
         oracle='c05',
@@ -194,10 +220,10 @@ PROPS = {
     ),
     'C11': dict(
         title='missing required fields are always detected, never misjudged',
-        modules=['Pbc.Props.C11'],
+        modules=['Pbc.Props.C11', 'Pbc.Refine.Bridge'],
         theorems=['Pbc.Props.C11.resolveField_spec', 'Pbc.Props.C11.scanStep_inv', 'Pbc.Props.C11.scanLoop_inv',
                   'Pbc.Props.C11.success_implies_required_present', 'Pbc.Props.C11.missing_required_rejected',
-                  'Pbc.Props.C11.only_required_fields_matter'],
+                  'Pbc.Props.C11.only_required_fields_matter'] + SCAN_MODEL,
         refine=['parse_tag_and_wiretype_spec', 'scan_length_prefixed_data_spec', 'scan_varint_spec'],
         cases=[('req', 300, 5000, ['--big']), ('wire', 150, 2000, [])],
         oracle='c11',
@@ -214,14 +240,14 @@ PROPS = {
     ),
     'C14': dict(
         title='descriptor lookups find every key and reject every non-key',
-        modules=['Pbc.Props.C14', 'Pbc.Props.C13', 'Pbc.Props.C20', 'Pbc.Lemmas.Ranges'],
+        modules=['Pbc.Props.C14', 'Pbc.Props.C13', 'Pbc.Props.C20', 'Pbc.Lemmas.Ranges', 'Pbc.Refine.Loops'],
         theorems=['Pbc.Props.C14.bsearch_sound', 'Pbc.Props.C14.bsearch_complete', 'Pbc.Props.C14.bsearch_none',
                   'Pbc.Props.C14.ranges_sorted', 'Pbc.Props.C14.rangeLookup_spec', 'Pbc.Props.C14.rangeLookup_none',
                   'Pbc.Props.C14.cmpBytes_trans', 'Pbc.Props.C14.names_sorted_cmp', 'Pbc.Props.C14.nameLookup_spec',
                   # ... over the tables the generator emits (generator model): every key, found iff declared
                   'Pbc.Lemmas.Ranges.mkRanges_wf', 'Pbc.Lemmas.Ranges.rangeLookup_mkRanges', 'Pbc.Lemmas.Ranges.rangeLookup_mkRanges_none',
                   'Pbc.Props.C13.field_by_number', 'Pbc.Props.C13.field_by_name', 'Pbc.Props.C13.enum_by_number',
-                  'Pbc.Props.C13.enum_by_number_none', 'Pbc.Props.C13.enum_by_name', 'Pbc.Props.C20.method_by_name'],
+                  'Pbc.Props.C13.enum_by_number_none', 'Pbc.Props.C13.enum_by_name', 'Pbc.Props.C20.method_by_name'] + LOOP_LOOKUP_MODEL,
         refine=[],
         cases=[('lookup', 1500, 20000, []), ('leaf', 30, 200, [])], gen=(16, 96),
         oracle='c14',
@@ -229,11 +255,12 @@ PROPS = {
     ),
     'C16': dict(
         title='behaviour is independent of build configuration and byte-order path',
-        modules=['Pbc.Props.C16', 'Pbc.Refine.BigEndian'],
+        modules=['Pbc.Props.C16', 'Pbc.Refine.BigEndian', 'Pbc.Refine.Bridge'],
         theorems=['Pbc.Refine.BE.fixed32_pack_same', 'Pbc.Refine.BE.fixed64_pack_same', 'Pbc.Refine.BE.parse_fixed_uint32_same',
                   'Pbc.Refine.BE.parse_fixed_uint64_same', 'Pbc.Props.C16.asserts_listed', 'Pbc.Props.C16.names_read_only_by_name_lookups',
-                  'Pbc.Props.C16.guess_off_by_one', 'Pbc.Props.C16.streamed_payload_length'],
-        refine=['get_type_min_size_spec', 'sizeof_elt_in_repeated_array_spec', 'is_packable_type_spec'],
+                  'Pbc.Props.C16.guess_off_by_one', 'Pbc.Props.C16.streamed_payload_length',
+                  B + 'fixed32_pack_model', B + 'fixed64_pack_model', B + 'parse_fixed_uint32_model', B + 'parse_fixed_uint64_model'],
+        refine=['get_type_min_size_spec', 'fixed32_pack_spec', 'fixed64_pack_spec', 'parse_fixed_uint32_spec', 'parse_fixed_uint64_spec', 'sizeof_elt_in_repeated_array_spec', 'is_packable_type_spec'],
         cases=[('msg', 150, 2000, ['--big']), ('wire', 250, 4000, [])],
         oracle='c16', variants=['be', 'ndebug', 'O0', 'O2', 'clang'],
     ),
@@ -400,22 +427,39 @@ def ensure_build():
 # ----------------------------------------------------------------------------------------------
 # proof obligations and audit
 # ----------------------------------------------------------------------------------------------
-def failed_theorems_in(module):
-    """elaborate the module directly and map error lines to the enclosing theorem names"""
+def failed_theorems_in(module, obligations=()):
+    """elaborate the module directly (Lean goes on after an error, a failed proof becomes `sorryAx`) with
+    `#print axioms` for the obligations appended: maps error lines to the enclosing theorem names and tells, for
+    every obligation visible there, whether it still rests only on checked proofs.
+    -> (bad {theorem: [messages]}, output tail, axioms {obligation: [axioms]})"""
     path = os.path.join(LEAN, module.replace('.', '/') + '.lean')
-    r = run(['lake', 'env', 'lean', path], cwd=LEAN)
+    os.makedirs(os.path.join(BUILD, 'audit'), exist_ok=True)
+    tmp = os.path.join(BUILD, 'audit', 'failed_%s_%d.lean' % (module.replace('.', '_'), os.getpid()))
+    text = open(path).read()
+    with open(tmp, 'w') as f:
+        f.write(text + '\n' + ''.join('#print axioms %s\n' % t for t in obligations))
+    r = run(['lake', 'env', 'lean', tmp], cwd=LEAN)
     out = r.stdout + r.stderr
-    errs = [(int(m.group(1)), m.group(2)) for m in re.finditer(r':(\d+):\d+: error: (.*)', out)]
-    src = open(path).read().split('\n')
+    os.remove(tmp)
+    nlines = text.count('\n') + 1
+    errs = [(int(m.group(1)), m.group(2)) for m in re.finditer(r':(\d+):\d+: error[^:]*: (.*)', out) if int(m.group(1)) <= nlines]
+    src = text.split('\n')
     starts = [(i + 1, m.group(1)) for i, l in enumerate(src) for m in [re.match(r'\s*theorem\s+([A-Za-z0-9_.\']+)', l)] if m]
     bad = {}
     for line, msg in errs:
         name = None
-        for s, n in starts:
-            if s <= line:
+        for s_, n in starts:
+            if s_ <= line:
                 name = n
         bad.setdefault(name or '?', []).append(msg[:400])
-    return bad, out[-4000:]
+    axs = {}
+    for t in obligations:
+        m = re.search(r"'%s' depends on axioms: \[([^\]]*)\]" % re.escape(t), out)
+        if m:
+            axs[t] = [a.strip() for a in m.group(1).replace('\n', ' ').split(',') if a.strip()]
+        elif re.search(r"'%s' does not depend on any axioms" % re.escape(t), out):
+            axs[t] = []
+    return bad, out[-4000:], axs
 
 
 def audit(theorems, imports):
@@ -577,17 +621,33 @@ def main():
     obligations = list(P['theorems']) + [R + t for t in P['refine']]
     undischarged = {}
     mods = state.get('mods', {})
-    need_mods = P['modules'] + (['Pbc.Refine.Leaves'] if P['refine'] else [])
+    need_mods = P['modules'] + (['Pbc.Refine.Leaves'] if (P['refine'] or any(t.startswith(B) for t in P['theorems'])) else [])
     failed_detail = {}
+    failed_axioms = {}
     for m in need_mods:
         if mods.get(m, {}).get('rc', 1) != 0:
-            bad, tail = failed_theorems_in(m)
+            bad, tail, axs = failed_theorems_in(m, obligations)
             failed_detail[m] = (bad, tail)
+            for t, a in axs.items():
+                # the same name can be visible from several failed modules: a sorry-free sighting wins only if
+                # every sighting is sorry-free (the definition is the same one)
+                if t not in failed_axioms or 'sorryAx' in a:
+                    failed_axioms[t] = a
     built_mods = [m for m in need_mods if mods.get(m, {}).get('rc', 1) == 0]
     axioms_seen = {}
     native_axioms = []
     res, tail = audit(obligations, built_mods) if built_mods else ({t: None for t in obligations}, '')
-    for t, ax in res.items():
+    for t, ax in list(res.items()):
+        if ax is None and t in failed_axioms:
+            # its module no longer builds, but Lean elaborated it: it is discharged iff it rests on no failed proof
+            if 'sorryAx' in failed_axioms[t]:
+                culprits = sorted({n for m_, (bad, _) in failed_detail.items() for n in bad if n != '?'})
+                msgs = [x for m_, (bad, _) in failed_detail.items() for n in bad for x in bad[n][:1]]
+                undischarged[t] = ['rests on a proof that no longer checks (%s): %s' % (', '.join(culprits)[:300], (msgs or [''])[0][:300])]
+                continue
+            ax = failed_axioms[t]
+            res[t] = ax
+            notes.append('%s audited inside a module that no longer builds: it does not rest on the failed proofs' % t)
         if ax is None:
             # not visible now.  If its module failed because of OTHER, named theorems, this one is merely
             # not audited in this run (recorded); if it is among the failing ones, or nothing explains the
@@ -595,6 +655,15 @@ def main():
             short = t.split('.')[-1]
             why = None
             excused = False
+            if t.startswith(B) and 'Pbc.Refine.Leaves' in failed_detail:
+                lbad = failed_detail['Pbc.Refine.Leaves'][0]
+                hit = [d for d in bridge_deps(short) if d in lbad]
+                if lbad and '?' not in lbad and not hit:
+                    notes.append('%s not audited: Pbc.Refine.Leaves failed on theorems it does not rest on (%s)' % (t, ', '.join(sorted(lbad))[:200]))
+                    continue
+                if hit:
+                    undischarged[t] = ['rests on %s, which no longer holds: %s' % (hit[0], lbad[hit[0]][0][:300])]
+                    continue
             for m, (bad, tl) in failed_detail.items():
                 if short in bad:
                     why = ['%s: %s' % (m, x) for x in bad[short][:2]]
